@@ -945,6 +945,34 @@ func (c *Ctx) evalCall(e *Expr, env *Env) *Val {
 		}
 		c.specErr("len of %s", e.Args[0])
 		return nil
+	case "inloop":
+		// inloop(N): the program point the clause is evaluated at (a return site, a call site)
+		// is reached from inside an iteration of loop N - it lies in the loop body or was
+		// left from it by return / break, as opposed to the loop's regular exit
+		if len(e.Args) != 1 || e.Args[0].Op != "num" || c.fn == nil || c.curBlk == nil {
+			c.specErr("inloop(<loop number>)")
+			return nil
+		}
+		n, _ := strconv.Atoi(e.Args[0].Name)
+		res := "false"
+		found := false
+		for h, ord := range c.loopOrd {
+			if ord != n {
+				continue
+			}
+			found = true
+			body := loopBody(h)
+			for _, sc := range h.Succs {
+				if body[sc] && sc != h && (sc == c.curBlk || sc.Dominates(c.curBlk)) {
+					res = "true"
+				}
+			}
+		}
+		if !found {
+			c.specErr("inloop(%d): no such loop", n)
+			return nil
+		}
+		return &Val{K: VScalar, T: types.Typ[types.Bool], S: res}
 	case "samearray", "sliceoff":
 		// samearray(a, b): the two slices share their backing array; sliceoff(a, b): how many
 		// elements after b's first element a's first element lies (meaningful when they share
